@@ -33,6 +33,7 @@ class SeqSpec:
     universe = None
     with_sources = True
     thresholds = None             # (_IN_SQL_MAX_LENGTH, _MAX_CHUNK_ITERATE_LENGTH) or None for the defaults
+    tolerate_exceptions = False   # an operation may refuse (raise); only the state oracles judge
 
     def roots(self):
         """List of (name, config, prefix_history)."""
@@ -104,8 +105,12 @@ def _make_world(spec: SeqSpec, root):
 
 def _canon(w: World, raw: RawState):
     from disk_objectstore import Container
+    extra = ()
+    if _SPEC is not None and _SPEC.tolerate_exceptions:
+        # operations may refuse: the reference model is then not a function of the on-disk state, so it is part of the state
+        extra = (w.model.state(), tuple(sorted(w.uncertain)))
     return (tuple(sorted(w.config.items())), raw.canon(), tuple(handle_state(h) for h in w.handles), w.cur,
-            tuple(sorted(w.damaged)), (Container._IN_SQL_MAX_LENGTH, Container._MAX_CHUNK_ITERATE_LENGTH))
+            tuple(sorted(w.damaged)), (Container._IN_SQL_MAX_LENGTH, Container._MAX_CHUNK_ITERATE_LENGTH)) + extra
 
 
 def _replay(spec: SeqSpec, root, hist):
@@ -132,7 +137,7 @@ def _expand_task(arg):
                 res = w.apply(op)
                 after = RawState(w.root)
                 viols = []
-                if not res.ok:
+                if not res.ok and not (spec.tolerate_exceptions and res.clause == 'unexpected-exception'):
                     viols.append((res.clause, res.detail))
                 canon = _canon(w, after)
                 mstate = w.model.state()
